@@ -7,6 +7,7 @@ import (
 	"encoding/binary"
 	"fmt"
 	"os"
+	"path/filepath"
 	"runtime/debug"
 	"strings"
 
@@ -54,6 +55,39 @@ func init() {
 		}
 	}
 	debug.SetMaxStack(192 << 20)
+	// The tree under test reaches files through an API the instrumenter does not virtualise (os.Open,
+	// os.Stat, ...): the virtual files are then also written into a private directory on tmpfs, which
+	// becomes the working directory, so that every file API sees them.
+	if d := os.Getenv("VERIF_MATERIALIZE"); d != "" {
+		if os.MkdirAll(d, 0o755) == nil && os.Chdir(d) == nil {
+			Materialize = d
+		}
+	}
+}
+
+// Materialize is the directory (the working directory) virtual files are also written to; "" = not.
+var Materialize string
+var materialized []string
+
+func materialize(files map[string][]byte) {
+	if Materialize == "" {
+		return
+	}
+	for _, n := range materialized {
+		os.Remove(n)
+	}
+	materialized = materialized[:0]
+	for name, b := range files {
+		if name == "" || filepath.IsAbs(name) || strings.Contains(name, "..") {
+			continue
+		}
+		if d := filepath.Dir(name); d != "." {
+			os.MkdirAll(d, 0o755)
+		}
+		if os.WriteFile(name, b, 0o644) == nil {
+			materialized = append(materialized, name)
+		}
+	}
 }
 
 // Inflight records the case about to be executed, so that the driver can
@@ -233,6 +267,7 @@ func RunFile(prog string, o Opts) Outcome {
 		verifrt.Args = []string{"borno", "prog.bn"}
 	}
 	verifrt.Files["prog.bn"] = []byte(prog)
+	materialize(verifrt.Files)
 	var out Outcome
 	guard(&out, verifmain.Main)
 	finish(&out, o.Fuel)
